@@ -31,58 +31,66 @@ def stepSpec (as : Attrs) : Op → Attrs
 
 /-- Add appends. -/
 theorem add_spec (as : Attrs) (k : Int) (v : Bytes) : as.add k v = as ++ [⟨k, v⟩] := by
-  sorry
+  rfl
 
 /-- Del (the in-place loop) removes exactly the attributes of the type. -/
 theorem del_spec (as : Attrs) (k : Int) : as.del k = as.filter (fun a => a.typ ≠ k) := by
-  sorry
+  exact del_eq_filter as k
 
 /-- Set (the in-place loop) replaces the first occurrence, removes the others, appends when absent. -/
 theorem set_spec (as : Attrs) (k : Int) (v : Bytes) : as.set k v = Spec.set as k v := by
-  sorry
+  exact set_eq_spec as k v
 
 /-- Lookup / Get return the first attribute of the type, or report absence. -/
 theorem lookup_spec (as : Attrs) (k : Int) :
     as.lookup k = (as.find? (fun a => a.typ = k)).map (·.val) := by
-  sorry
+  exact lookup_eq_find as k
 
 theorem get_spec (as : Attrs) (k : Int) :
     as.get k = ((as.find? (fun a => a.typ = k)).map (·.val)).getD [] := by
-  sorry
+  rw [Attrs.get, lookup_eq_find]
 
 /-- Set leaves exactly one attribute of the type, carrying the new value. -/
 theorem set_exactly_one (as : Attrs) (k : Int) (v : Bytes) :
     (as.set k v).filter (fun a => a.typ = k) = [⟨k, v⟩] := by
-  sorry
+  rw [set_eq_spec]; exact specSet_filter_eq as k v
 
 theorem set_then_lookup (as : Attrs) (k : Int) (v : Bytes) : (as.set k v).lookup k = some v := by
-  sorry
+  rw [lookup_of_filter, set_eq_spec, specSet_filter_eq]; rfl
 
 /-- Del removes every attribute of the type. -/
 theorem del_none_left (as : Attrs) (k : Int) : (as.del k).lookup k = none := by
-  sorry
+  rw [lookup_of_filter, del_eq_filter, List.filter_filter]; simp
 
 /-- None of the operations changes the value or relative order of attributes of other types. -/
 theorem others_untouched (as : Attrs) (o : Op) :
     (stepModel as o).filter (fun a => a.typ ≠ o.key) = as.filter (fun a => a.typ ≠ o.key) := by
-  sorry
+  cases o with
+  | add k v => simp [stepModel, Op.key, Attrs.add]
+  | del k => simp only [stepModel, Op.key, del_eq_filter]; exact filter_ne_idem as k
+  | set k v => simp only [stepModel, Op.key, set_eq_spec]; exact specSet_filter_ne as k v
 
 /-- Any operation sequence: the Go loops and the ordered-multimap specification agree. -/
 theorem ops_refine_spec (as : Attrs) (ops : List Op) :
     ops.foldl stepModel as = ops.foldl stepSpec as := by
-  sorry
+  induction ops generalizing as with
+  | nil => rfl
+  | cons o ops ih =>
+    have h : stepModel as o = stepSpec as o := by
+      cases o <;> simp [stepModel, stepSpec, Attrs.add, del_eq_filter, set_eq_spec, Spec.del]
+    simp only [List.foldl_cons, h, ih]
 
 /-- The wire form lists, in list order, exactly the attributes whose type is within 0-255, and the
     reported length equals the bytes written. -/
 theorem wire_form (as : Attrs) (n : Nat) (h : encodedLen as = .ok n) :
     encodeTo as (zeros n) = .ok (((as.filter validType).map avpBytes).flatten) ∧
       (((as.filter validType).map avpBytes).flatten).length = n := by
-  sorry
+  rw [← encodeBytes_eq_flatten]; exact encodeTo_of_encodedLen as n h
 
 /-! Non-vacuity (tests) -/
 example : Attrs.del [⟨1, [1]⟩, ⟨2, []⟩, ⟨1, [2]⟩, ⟨1, [3]⟩] 1 = [⟨2, []⟩] := by
-  sorry
+  simp [del_eq_filter]
 example : Attrs.set [⟨1, [1]⟩, ⟨2, []⟩, ⟨1, [2]⟩] 1 [9] = [⟨1, [9]⟩, ⟨2, []⟩] := by
-  sorry
+  rw [set_eq_spec]; simp [Spec.set, Spec.setAux]
 
 end RV.C09
